@@ -330,6 +330,18 @@ Section Machine.
   Definition invalid_obs : obs := Some (nothing, -9).
 
   (* numpy scalars (distance of a single position, ...) cannot be written into *)
+  (* a machine with quirks that cannot predict a derived value (its ingredients are not in the table of
+     reference results) remembers that the implementation has memoised *something* there *)
+  Definition any_quirk : bool := q_shape q || q_alias q || q_ro q || q_view q || q_hand q.
+  Definition unknown_arr : arr := ([-1], []).
+  Definition taint (w : world) (p : nat) (qt : Z) : world :=
+    if any_quirk then
+      upd_obj (set_next w (S (nextid w))) p
+              (fun o' => o_set_cache o' (ochild o') ((qt, (unknown_arr, nextid w)) :: oderived o'))
+    else w.
+  Definition obs_of (a : arr) : obs :=
+    if any_quirk && zlist_eqb (fst a) [-1] then None else Some (a, 0).
+
   Definition hand_reg (w : world) (c : cell) : world :=
     set_reg w (match fst (fst c) with
                | [_] => None
@@ -348,14 +360,14 @@ Section Machine.
       | None => (set_reg w None, Some (nothing, -2))            (* InitializationError *)
       | Some qo =>
           match assoc_z qt (oderived (get_obj w p)) with
-          | Some c => (hand_reg w c, Some (resolve w c, 0))
+          | Some c => (hand_reg w c, obs_of (resolve w c))
           | None =>
               let (w1, oi) := ingredients w p qo qt in
               match oi with
-              | None => (set_reg w1 None, None)
+              | None => (set_reg (taint w1 p qt) None, None)
               | Some l =>
                   match pf (10 + qt) 0 (map (fun a => (false, a)) l) with
-                  | None => (set_reg w1 None, None)
+                  | None => (set_reg (taint w1 p qt) None, None)
                   | Some v =>
                       let c := (v, nextid w1) in
                       let w2 := set_next w1 (S (nextid w1)) in
@@ -418,9 +430,7 @@ Section Machine.
 
   Definition do_setrow (w : world) (x : nat) (v : list Z) : world * obs :=
     let o := get_obj w x in
-    if okind o =? 0 then
-      if oro o then (w, Some (nothing, -1))                      (* ValueError: assignment destination is read-only *)
-      else (set_bufs w (upd_nth (obuf o) (write_row0 v) (bufs w)), ok_obs)
+    if (okind o =? 0) && oro o then (w, Some (nothing, -1))      (* ValueError: assignment destination is read-only *)
     else
       let w0 := if q_view q && stale_left w x 0 (objs w) then set_fired w true else w in
       let w1 := set_objs w0 (clear_from w0 x 0 (objs w0)) in
@@ -507,10 +517,12 @@ Section Machine.
         end
     | SetRow s v => with_slot w s (fun p => do_setrow w p v)
     | SetOther s None =>
-        with_slot w s (fun p => (upd_obj w p (fun o' => o_set_other o' None), ok_obs))
+        with_slot w s (fun p =>
+          if 1 <=? okind (get_obj w p) then (upd_obj w p (fun o' => o_set_other o' None), ok_obs)
+          else (w, invalid_obs))
     | SetOther s (Some s') =>
         with_slot w s (fun p => with_slot w s' (fun y =>
-          if Nat.eqb p y then (w, invalid_obs)
+          if Nat.eqb p y || negb (1 <=? okind (get_obj w p)) || negb (1 <=? okind (get_obj w y)) then (w, invalid_obs)
           else (upd_obj w p (fun o' => o_set_other o' (Some y)), ok_obs)))
     | Slice s kind s' => with_slot w s (fun p => do_slice w p kind s')
     | Flood fn n => (set_lru w fn (flood n (lrus w fn)), ok_obs)
@@ -599,11 +611,13 @@ Fixpoint first_agreeing (pf : Z -> Z -> list karg -> option arr) (ops : list op)
 
 (* verdict: 0 = the implementation equals the specification machine; 32 + bits = equals the machine with
    that set of quirks (bit 0 shape, 1 alias, 2 read-only, 3 view, 4 hand-out); 1 = unexplained *)
-Definition check_hist (c : table * list op * list (arr * Z)) : Z :=
+Definition check_hist_with (cs : list Z) (c : table * list op * list (arr * Z)) : Z :=
   let '(t, ops, seen) := c in
   let pf := pf_of_table t in
   if agrees pf all_off empty_world ops seen then 0
-  else first_agreeing pf ops seen candidates.
+  else first_agreeing pf ops seen cs.
+
+Definition check_hist := check_hist_with candidates.
 
 (* ------------------------------------------------------------------------------------ time scales *)
 (* TimeBase.to_scale is an lru_cache'd method: key = (self, scale) with self compared by class and
